@@ -41,6 +41,8 @@ fn main() -> Result<(), Box<dyn Error>> {
         }
         xml_xpath::eval::model::Value::Number(v) => {
             // as string() converts a number: Infinity, -Infinity, NaN, not Rust's inf.
+            // (and negative zero as 0.)
+            let v = if v == 0.0 { 0.0 } else { v };
             let text = String::try_from(&xml_xpath::eval::model::Value::Number(v))
                 .map_err(|v| v.to_string())?;
             writeln!(buf, "{}", text)?;
